@@ -791,7 +791,10 @@ class Machine:
             raise Unsupported('unop ' + rv[1])
         if k == 'discr':
             v = self.place_cell(frame, rv[1]).v
-            if isinstance(v, Agg): return v.vidx
+            if isinstance(v, Agg):
+                # std::cmp::Ordering is repr(i8) with Less = -1: switch targets print its discriminant as the unsigned byte 255
+                if v.ty == 'Ordering' and isinstance(v.vidx, int) and v.vidx < 0: return v.vidx & 0xff
+                return v.vidx
             raise Unsupported(f'discriminant of {v!r}')
         if k == 'cast':
             return self.cast(self.operand(frame, rv[1]), rv[2], rv[3])
@@ -829,6 +832,7 @@ class Machine:
                 decl = self.variant_fields.get((ty, last))
                 if decl and sorted(decl) == sorted(names) and decl != names:
                     vals = [vals[names.index(n)] for n in decl]
+            if ty == 'Ordering': return Agg('Ordering', last, self.enums[ty].index(last) - 1, vals)       # repr(i8): Less = -1
             return Agg(ty, last, self.enums[ty].index(last), vals)
         if names and last in self.structs:
             decl = self.structs[last]
